@@ -172,7 +172,12 @@ def run_history(ctx, cfg, metrics, restarts, with_state, root_name="c15"):
             break
     # what a fresh controller reads back
     text = T.csv_text(root)
-    fresh = T.new_controller(cfg, root) if with_state else _ctrl_nostate(cfg, root)
+    try:
+        fresh = T.new_controller(cfg, root) if with_state else _ctrl_nostate(cfg, root)
+    except Exception as ex:  # noqa: BLE001
+        ctx.violation({"api": "history", "symptom": "history-unreadable-after-reload", "type": type(ex).__name__,
+                       "user_entries": bool(cfg.get("user_entries"))}, case, {"error": str(ex)[-300:], "csv": text})
+        return None
     for i, info in enumerate(infos, 1):
         got = fresh.get_info(i, None)
         if got is None:
